@@ -9,6 +9,11 @@ CHECKS = {
    technique="stateless DFS over all schedules of the real lazymap.go (sync ops shimmed) with state-key pruning + on-the-fly linearizability monitor",
    text="All interleavings (at sync.Map / WaitGroup / compute-callback granularity) of every canonical tuple of <=3 thread programs x <=2 operations over 2 keys are executed on the real lazymap.go of both module generations; each is checked against a linearizability monitor for a plain map with compute-if-absent, plus deadlock, placeholder-leak, blocked-after-return and quiescent-value oracles. Exhaustive within that bound, which is the property's own quantifier.",
    note="Trusted: the verifsync shim's model of sync.Map/WaitGroup as atomic sequentially-consistent operations, the monitor, the scheduler. Weak-memory effects are not modelled."),
+
+ "C19": dict(engine="bfs", category="model_checking", design="§3 C19",
+   technique="explicit enumeration of all event histories (replayed on fresh instances through the real handlers) against a reference fold + snapshot-immutability oracle; exhaustive announcement-set x scripted-RNG-answer enumeration for selection",
+   text="Every ZooKeeper event history up to length 4 (quick) / 6 (thorough) over 3 znodes x {add, change, delete, malformed, weight-less} (+ a wider malformed alphabet at shorter length, + service-definition events at client level) is replayed through the real handleUriUpdate / wait loops of both generations; after every event the snapshot equals the reference fold and every earlier snapshot is unchanged. Host selection is decided for every announcement set (<=3/4 hosts x scheme x weight incl. 0 and fractional x znode grouping) x 6 priority lists x every scripted RNG answer on a 64*W grid plus the extremes.",
+   note="Trusted: overlay export file (forwarding only), reference fold, scripted rand.Source. ZooKeeper, treecache.go and timers are below the seam and not exercised. Go map iteration order is not controllable: the selection oracle accepts the choice under any iteration order."),
 }
 
 NOT_YET = "check not yet built in this commit; planned in DESIGN.md"
@@ -35,7 +40,7 @@ def main():
         "hooks": {
             "guard": "verif",
             "enable": "go build -tags verif -overlay <generated overlay.json>: instrumentation is injected at build time from /repo's current files (sync import of the files under test rewritten to a virtual verifsync package; in-package export files added); no source change in /repo is needed",
-            "baseline_off_cmd": "cd /repo && for m in . v2; do (cd $m && GOFLAGS=-mod=mod GOPROXY=off GOSUMDB=off GOTOOLCHAIN=local go test -vet=off -count=1 ./...) || exit 1; done",
+            "baseline_off_cmd": "python3 /verif/lib/baseline.py /repo",
             "source_commits": [],
             "add_only": True,
         },
